@@ -406,6 +406,10 @@ def run(ctx: Ctx) -> None:
                     "default and the call is keyed as f(): a later direct `dds.keep('/p', f)` is served the blob computed with a=5"],
                     "default-under-mapping", what="a kept call seen in source with a ** mapping is bound as if the arguments were omitted")
     rep.floor("C13.R5", n5, 1)
+    from .c05 import no_module_memo
+    rep.rule("C13.R11", "the binders read the parameters of the function they are given, every time: no module-level memo (of signatures, of bindings) is consulted")
+    no_module_memo(ctx, "C13.R11", "a signature memo keyed by the function's name survives its redefinition: after `def f(x, k=1)` was used and f redefined with `k=2`, the call f(x) "
+                                   "is still bound with the old default and served the old result")
     from .c05 import falsy_distinct
     rep.rule("C13.R10", "calls that bind a different value get a different signature, falsy values included: None, 0, 0.0, \"\", [] and {} are digested from different bytes")
     n10 = falsy_distinct(ctx, "C13.R10")
